@@ -52,6 +52,7 @@ def shaped(g):
 
 
 def gen_cases(ctx):
+    mapgen.use_gotypes(ctx)
     g = mapgen.MapGen(ctx.rng)
     maxbits = ctx.n(7, 10)
     specs = [("witness-" + f, w) for f, w in mapgen.WITNESSES[PROP]()] + shaped(g)
@@ -84,6 +85,8 @@ def run_cases(ctx, cases):
         rcs = [x["rc"] for x in r["runs"]]
         im["exit"] = "0" if all(x == 0 for x in rcs) else str([x for x in rcs if x != 0][0])
         im["compile"] = "ok" if r["compile"] == "ok" else "error"
+        if im["exit"] != "0":
+            im = {"exit": im["exit"]}          # the run failed: nothing else to observe
         impl[c["id"]] = im
         if r["compile"] == "ok":
             want = ",".join(mapgen.slots(mapgen.side_struct(c["spec"], "src"))), ",".join(mapgen.slots(c["spec"]["dest"]))
@@ -97,7 +100,8 @@ def run_cases(ctx, cases):
         m = model.get(c["id"])
         if m:
             for side in ("model", "spec"):
-                m[side]["exit"] = "0"
+                m[side].setdefault("exit", "0")
+                mapgen.normalize_bool(c["spec"], m[side])
     return impl, model
 
 
